@@ -9,3 +9,9 @@ func VerifPrioritizeArgTs(argTs []*base.T) []*base.T { return prioritizeArgTs(ar
 
 // VerifPrioritizeDefineArgNames exposes prioritizeDefineArgNames.
 func VerifPrioritizeDefineArgNames(names []string) []string { return prioritizeDefineArgNames(names) }
+
+// VerifCheckArgType exposes checkArgType: true when the argument type is accepted for the declared type.
+func VerifCheckArgType(definedArgT, argT *base.T) bool {
+	m := &MethodEvaluator{method: "m"}
+	return checkArgType(m, "C", definedArgT, argT) == nil
+}
